@@ -62,7 +62,10 @@ def _make_proxy(inner, idx, log, intern, variant):
     return Proxy()
 
 
-def record(variant: str, readers: list, chunks: list[bytes], plan_payloads=None, mode="free", origin="", names=None) -> dict:
+def record(variant: str, readers: list, chunks: list[bytes], plan_payloads=None, mode="free", origin="", names=None, container="list",
+           shared=None) -> dict:
+    """container: how the candidates are handed over ("list", "tuple", or "shared": a list object the caller keeps and
+    hands to a second protocol instance later, as a connection factory that builds its candidate list once would)."""
     loop = asyncio.new_event_loop()
     asyncio.set_event_loop(loop)
     try:
@@ -70,7 +73,14 @@ def record(variant: str, readers: list, chunks: list[bytes], plan_payloads=None,
         intern = _Intern()
         log: list = []
         proxies = [_make_proxy(r, i + 1, log, intern, variant) for i, r in enumerate(readers)]
-        proto = _classes()[variant](q, proxies)
+        if shared is not None:
+            if shared:                      # second session: same list object, new reader proxies put back by the caller
+                del shared[:]
+            shared.extend(proxies)
+            cands = shared
+        else:
+            cands = tuple(proxies) if container == "tuple" else list(proxies)
+        proto = _classes()[variant](q, cands)
         calls = []
         keep = []
         for ch in chunks:
@@ -142,11 +152,19 @@ def _mk(args):
                     mode = "clean"
             else:
                 data = H.free_stream(rng, cfg)
+                if rng.random() < 0.5:      # clean frames around a frame with an empty information field (payload b"")
+                    ef = H.empty_info_frame(rng)
+                    ok = H.item_bytes(H.item_frame(rng, maxinfo=30, sizes=[3, 8]))
+                    enc = (lambda x: H.stuff(x)) if cfg[0] else (lambda x: x)
+                    data = bytes([0x7E]) + enc(ok) + bytes([0x7E]) + enc(ef) + bytes([0x7E]) + enc(ok) + bytes([0x7E]) + data
         elif style.startswith("p1"):
             if "P1" not in names:
                 names = names + ["P1"]
             if style == "p1_clean":
                 plan = P.clean_plan(rng, rng.randint(1, 5), rng.random() < 0.3)
+                if rng.random() < 0.5:      # a readout whose data block is empty: valid message, payload b"" (must NOT be enqueued)
+                    it = P.item_readout(rng, nlines=0)
+                    plan.insert(rng.randint(1 if plan[0]["k"] == "tail" else 0, len(plan)), it)
                 data = P.plan_wire(plan)
                 if variant == "payload":
                     def pl(it):
@@ -180,7 +198,21 @@ def _mk(args):
                         mode, plan_payloads = "free", None
                 except Exception:  # noqa: BLE001
                     pass
-        out.append(record(variant, mk_readers(names), split(data, cuts), plan_payloads, mode, f"gen:{style}", names))
+        how = rng.choice(["list", "list", "tuple", "two_sessions"])
+        if how == "two_sessions":
+            # the user's candidate list object outlives the first protocol instance (reconnect): the second instance must
+            # work from the same object exactly like the first
+            shared: list = []
+            record(variant, mk_readers(names), split(data, cuts), plan_payloads, mode, f"gen:{style}:session1", names, shared=shared)
+            if len(shared) != len(names):
+                shared[:] = []          # the first instance emptied the caller's list: the second one gets what is left (nothing)
+                t = record(variant, [], split(data, cuts), plan_payloads, mode, f"gen:{style}:session2-after-shared-list-was-emptied", names, shared=None,
+                           container="list")
+            else:
+                t = record(variant, mk_readers(names), split(data, cuts), plan_payloads, mode, f"gen:{style}:session2", names, shared=shared)
+            out.append(t)
+        else:
+            out.append(record(variant, mk_readers(names), split(data, cuts), plan_payloads, mode, f"gen:{style}:{how}", names, container=how))
     return out
 
 
@@ -236,7 +268,7 @@ def replay_gen(chk: Check):
             variant = b["variant"]
             stubs = [_Stub([c["outs"][r] for c in b["calls"]], variant) for r in range(2)]
             q = asyncio.Queue()
-            proto = _classes()[variant](q, stubs)
+            proto = _classes()[variant](q, list(stubs))
             for ci, c in enumerate(b["calls"]):
                 before = [s.fed for s in stubs]
                 err = ""
@@ -247,7 +279,10 @@ def replay_gen(chk: Check):
                 got = []
                 while not q.empty():
                     x = q.get_nowait()
-                    got.append(x.pid if variant == "message" else int(x[1:]))
+                    if variant == "message":
+                        got.append(getattr(x, "pid", -1))
+                    else:
+                        got.append(int(x[1:]) if isinstance(x, bytes) and x[:1] == b"P" and x[1:].isdigit() else -1)
                 fed = [r + 1 for r in range(2) if stubs[r].fed > before[r]]
                 n += 1
                 if err or got != c["delta"] or sorted(fed) != sorted(c["fed"]):
